@@ -605,16 +605,30 @@ def saved_outputs_intact(idx: ProgramIndex, rep: Report):
            not any(isinstance(c.func, ast.Attribute) and c.func.attr.endswith("_") and not c.func.attr.startswith("_") for c in calls_in(fi.node)) and \
            not any(isinstance(x, ast.AugAssign) for x in ast.walk(fi.node)):
             continue
-        if not any(isinstance(c.func, ast.Attribute) and c.func.attr in OUTPUT_SAVING or (chain(c.func) or "").split(".")[-1] in OUTPUT_SAVING for c in calls_in(fi.node)):
+        own_saving = any(isinstance(c.func, ast.Attribute) and c.func.attr in OUTPUT_SAVING or (chain(c.func) or "").split(".")[-1] in OUTPUT_SAVING for c in calls_in(fi.node))
+        via_property = fi.cls is not None and any(isinstance(c.func, ast.Attribute) and c.func.attr.endswith("_") and not c.func.attr.startswith("_") and isinstance(c.func.value, ast.Attribute)
+                                                   and isinstance(c.func.value.value, ast.Name) and c.func.value.value.id == (fi.params[0] if fi.params else "self") for c in calls_in(fi.node))
+        if not own_saving and not via_property:
             continue
         n += 1
         probs = set()
 
-        def origin(e, saved):
+        def origin(e, saved, depth=0):
             """name of the output-saving op whose result e aliases, or None"""
             while True:
                 if isinstance(e, ast.Name):
                     return saved.get(e.id)
+                if isinstance(e, ast.Attribute) and isinstance(e.value, ast.Name) and e.value.id == (fi.params[0] if fi.params else "self") and fi.cls is not None and depth < 3:
+                    # a property of self that returns a fresh result of an output-saving operation (stddev = variance.sqrt())
+                    pm = fi.cls.lookup(e.attr)
+                    if pm is not None and pm.kind == "property":
+                        rets = [r.value for r in ast.walk(pm.node) if isinstance(r, ast.Return) and r.value is not None]
+                        if len(rets) == 1:
+                            return origin(rets[0], {}, depth + 1)
+                    if e.attr in ALIAS_VIEWS:
+                        e = e.value
+                        continue
+                    return None
                 if isinstance(e, ast.Attribute) and e.attr in ALIAS_VIEWS:
                     e = e.value
                     continue
@@ -637,6 +651,7 @@ def saved_outputs_intact(idx: ProgramIndex, rep: Report):
             for st, _env in seq:
                 if not isinstance(st, ast.stmt):
                     continue
+                saved_before = dict(saved)
                 if isinstance(st, ast.Assign):
                     # in-place through subscript store
                     for t in st.targets:
@@ -656,12 +671,19 @@ def saved_outputs_intact(idx: ProgramIndex, rep: Report):
                     o = origin(st.target, saved) if isinstance(st.target, (ast.Name, ast.Subscript)) else None
                     if o:
                         probs.add("`%s` (line %d) updates the result of %s() in place" % (" ".join(src(st).split())[:60], st.lineno, o))
-                elif isinstance(st, ast.Expr) and isinstance(st.value, ast.Call) and isinstance(st.value.func, ast.Attribute):
-                    m = st.value.func.attr
-                    if m.endswith("_") and not m.startswith("_") and m not in ("requires_grad_", "register_hook_"):
-                        o = origin(st.value.func.value, saved)
-                        if o:
-                            probs.add("`%s` (line %d) updates the result of %s() in place" % (" ".join(src(st).split())[:60], st.lineno, o))
+                # in-place methods anywhere in the statement (`x.clamp_(..)` as a statement, `y = x.mul_(2)` as a value)
+                if isinstance(st, (ast.Expr, ast.Assign, ast.Return, ast.AugAssign)):
+                    for c_ in (x for x in ast.walk(st) if isinstance(x, ast.Call) and isinstance(x.func, ast.Attribute)):
+                        m = c_.func.attr
+                        if m.endswith("_") and not m.startswith("_") and m not in ("requires_grad_", "register_hook_"):
+                            # a value that only initialises storage (`p.data.copy_(v.add_(noise))`) never takes part in a backward pass
+                            into_data = any(isinstance(x, ast.Call) and isinstance(x.func, ast.Attribute) and x.func.attr == "copy_" and ".data" in (src(x.func.value) or "") and any(y is c_ for a_ in x.args for y in ast.walk(a_))
+                                            for x in ast.walk(st))
+                            if into_data:
+                                continue
+                            o = origin(c_.func.value, saved_before if isinstance(st, ast.Assign) else saved)
+                            if o:
+                                probs.add("`%s` (line %d) updates the result of %s() in place" % (" ".join(src(c_).split())[:60], st.lineno, o))
         rep.add("C19-7", "%s:%s" % (fi.module.name, fi.qualname), fi.where, not probs,
                 "no in-place write reaches a result that autograd saved" if not probs else "; ".join(sorted(probs)) + ": a backward pass through this value raises (gradients of predictions / objectives through it are lost)", {})
     rep.floor("C19-7", "functions combining output-saving operations with in-place writes", n, 3)
